@@ -466,9 +466,11 @@ static void gen_text_line(rng_t *r)
         gb_add("%s%s%s\n", lead ? "\t " : "", t, trail == 1 ? "\r" : trail ? " \t" : "");
     } else gb_add("%*s%s%*s\n", lead, "", t, trail, "");
 }
+/* a registered context for a begin line: any of them, with a preference for the one registered last (the highest ID the table holds) */
+static int pick_ctx(rng_t *r, int nreg) { return nreg <= 0 ? 1 : rng_chance(r, 1, 8) ? nreg : rng_range(r, 1, nreg); }
 static void gen_c09(plan_t *p, rng_t *r)
 {
-    int nreg = rng_chance(r, 1, 8) ? rng_range(r, 41, 200) : rng_range(r, 0, 40), regime = (int)rng_below(r, 10);
+    int nreg = rng_chance(r, 1, 8) ? (rng_chance(r, 1, 3) ? rng_range(r, 253, 255) : rng_range(r, 41, 200)) : rng_range(r, 0, 40),      /* up to all 255 IDs an 8-bit index can name */ regime = (int)rng_below(r, 10);
     int nfiles = 1, open_depth = 0, target_depth = 0, nlines, include_chain = 0, nest_chunk;
     op_t *o;
     plan_knob(p, "alloc.fill", rng_range(r, 0, 4));
@@ -500,7 +502,7 @@ static void gen_c09(plan_t *p, rng_t *r)
         gb_add(rng_chance(r, 1, 10) ? "no magic here\n" : "<simrun-1.0>\n");
         for (int q = 0; q < nl; q++) {
             int c = (int)rng_below(r, 10);
-            if (c < 6 || target_depth > 200) gen_text_line(r); else if (c < 8) gb_add("begin %sc%d\n", gen_gap(r), rng_range(r, 1, nreg > 0 ? nreg : 1)); else gb_add("end\n");
+            if (c < 6 || target_depth > 200) gen_text_line(r); else if (c < 8) gb_add("begin %sc%d\n", gen_gap(r), pick_ctx(r, nreg)); else gb_add("end\n");
         }
         if (rng_chance(r, 1, 6)) { gbuf_len--; }              /* last line without newline */
         snprintf(nm, sizeof(nm), k == 2 ? "sub/s%d.cfg" : "f%d.cfg", k);
@@ -511,12 +513,12 @@ static void gen_c09(plan_t *p, rng_t *r)
     gb_reset();
     gb_add("<simrun-1.0>\n");
     nest_chunk = target_depth;
-    for (int q = 0; q < nest_chunk; q++) { gb_add("begin %s%s%d\n", gen_gap(r), rng_chance(r, 1, 20) ? "zz" : "c", rng_range(r, 1, nreg > 0 ? nreg : 1)); open_depth++; if (rng_chance(r, 1, 6)) gen_text_line(r); }
+    for (int q = 0; q < nest_chunk; q++) { gb_add("begin %s%s%d\n", gen_gap(r), rng_chance(r, 1, 20) ? "zz" : "c", pick_ctx(r, nreg)); open_depth++; if (rng_chance(r, 1, 6)) gen_text_line(r); }
     if (include_chain) gb_add("%%include inc1.cfg\n");
     for (int q = 0; q < nlines; q++) {
         int c = (int)rng_below(r, 100);
         if (c < 40) gen_text_line(r);
-        else if (c < 58 && open_depth < 250) { gb_add("%sbegin %s%s%d%s\n", rng_chance(r, 1, 5) ? "  " : "", gen_gap(r), rng_chance(r, 1, 10) ? "nosuch" : rng_chance(r, 1, 15) ? "null" : "c", rng_range(r, 1, nreg > 0 ? nreg : 1), rng_chance(r, 1, 6) ? " extra words" : ""); open_depth++; }
+        else if (c < 58 && open_depth < 250) { gb_add("%sbegin %s%s%d%s\n", rng_chance(r, 1, 5) ? "  " : "", gen_gap(r), rng_chance(r, 1, 10) ? "nosuch" : rng_chance(r, 1, 15) ? "null" : "c", pick_ctx(r, nreg), rng_chance(r, 1, 6) ? " extra words" : ""); open_depth++; }
         else if (c < 76) { gb_add(rng_chance(r, 1, 4) ? "end junk here\n" : rng_chance(r, 1, 5) ? "  END\n" : "end\n"); if (open_depth) open_depth--; }
         else if (c < 82) gb_add("%s# a comment %d\n", rng_chance(r, 1, 3) ? (rng_chance(r, 1, 2) ? "  " : "\t") : "", q);
         else if (c < 86) gb_add(rng_chance(r, 1, 2) ? "\n" : "   \n");
@@ -557,7 +559,7 @@ static void gen_c09(plan_t *p, rng_t *r)
         gb_add("<%s-1.0>\n", nm);
         for (int q = rng_range(r, 1, 6); q > 0; q--) {
             int c = (int)rng_below(r, 10);
-            if (c < 5) gen_text_line(r); else if (c < 7) gb_add("begin c%d\n", rng_range(r, 1, nreg > 0 ? nreg : 1)); else if (c < 8) gb_add("end\n"); else gb_add("%%include %s\n", rng_chance(r, 1, 2) ? "f0.cfg" : "f1.cfg");
+            if (c < 5) gen_text_line(r); else if (c < 7) gb_add("begin c%d\n", pick_ctx(r, nreg)); else if (c < 8) gb_add("end\n"); else gb_add("%%include %s\n", rng_chance(r, 1, 2) ? "f0.cfg" : "f1.cfg");
         }
         o = plan_op(p, 0, "file", 0); op_str(o, "root2.cfg", 9); op_str2(o, gbuf, gbuf_len);
         o = plan_op(p, 0, "parse", 1, 0L); op_str(o, "root2.cfg", 9);
